@@ -1,5 +1,6 @@
 import KpModel.Format.Legacy
 import KpModel.Format.Kdbx4Lemmas
+import KpModel.Format.KdbLemmas
 /-!
 # C02 — legacy containers (KDBX 3.1, KDB) decode to exactly the stored content
 
@@ -11,7 +12,10 @@ Property theorems only.  Proved here, for every input:
   conforming writer produces decodes to the stored configuration, inner key and document;
 * `C02_kdb_dup_witness`, `C02_kdb_dup_nested_witness` — the inputs of finding F11 (sibling groups with the same name;
   repaired in /repo by a `fix:` commit, the model follows the repaired code): entries land in the group whose id they name.
-* `C02_kdb_distinct_witness`, `C02_kdb_levels_witness` — forests by level numbers decode as stored.
+* `C02_kdb_distinct_witness`, `C02_kdb_levels_witness` — forests by level numbers decode as stored (evaluation).
+* `C02_kdb_records` — the general statement for the KDB record section: every conforming list of group records and every
+  list of entry records naming their ids decodes to the forest the records denote, every entry in the group its id names;
+  with `C02_kdb_position_designates`, `C02_kdb_entry_lands_in_group`, `C02_kdb_positions_stable`.
 -/
 namespace Kp.Props.C02
 open Kp.Fmt
@@ -345,14 +349,6 @@ def groupRec (gid : Nat) (name : Bytes) (level : Nat) : Bytes :=
 def entryRec (gid : Nat) (title : Bytes) : Bytes :=
   rec 1 (List.replicate 16 7) ++ rec 2 (toLe32 gid) ++ rec 4 (title ++ [0]) ++ rec 0xffff []
 
-/-- run the record stage of `parse_kdb` (`parse_db`) on a payload -/
-def parseDb (numGroups numEntries : Nat) (payload : Bytes) : Outcome (List KNode) :=
-  (parseGroups (payload.length + 1) numGroups payload {}).bind fun (gs, rest) =>
-    if gs.gid.isSome then .err .integrity else
-    let (_, rootCh) := collapse (gs.branch.length + 1) gs.branch 0 gs.rootCh
-    (parseEntries gs.gidMap (rest.length + 1) numEntries rest { rootCh := rootCh }).bind fun (es, _) =>
-      if es.gid.isSome then .err .integrity else .ok es.rootCh
-
 def nameA : Bytes := [65]
 def nameB : Bytes := [66]
 def titleE : Bytes := [101]
@@ -393,5 +389,46 @@ theorem C02_kdb_levels_witness :
     (parseDb 5 2 (groupRec 1 [65] 0 ++ groupRec 2 [66] 1 ++ groupRec 3 [67] 2 ++ groupRec 4 [68] 1 ++ groupRec 5 [69] 0
         ++ entryRec 3 titleE ++ entryRec 5 titleE)).bind (fun t => .ok (paths 4 [] t))
       = .ok [([[65]], 0), ([[65], [66]], 0), ([[65], [66], [67]], 1), ([[65], [68]], 0), ([[69]], 1)] := by decide +kernel
+
+/-! ### KDB: the general statement -/
+
+/-- **C02 for KDB record sections.**  For every list of group records with conforming level numbers (the first at level
+    0, each at most one deeper than its predecessor; any names incl. repeated ones, any ids, any depth) and every list of
+    entry records each naming the id of some group record (any subset and order of the seven value-field kinds), the
+    reader returns the forest the records denote: each group appended along the rightmost spine at the depth its level
+    gives (`specGroups`), then each entry appended to the children of the group at the position recorded for the id it
+    names (`placeEntries`).  What those positions designate is `C02_kdb_position_designates`; that appending there adds
+    the entry to exactly that group is `C02_kdb_entry_lands_in_group`. -/
+theorem C02_kdb_records (gs : List GRec) (es : List ERec) (hc : conform 0 gs)
+    (he : ∀ e ∈ es, e.ok ∧ ∃ g ∈ gs, g.gid = e.gid) :
+    ∃ F0 gm, specGroups gs [] [] = some (F0, gm)
+      ∧ parseDb gs.length es.length (gs.flatMap encodeGroup ++ es.flatMap encodeEntry) = .ok (placeEntries gm es F0) := by
+  obtain ⟨F0, gm, h1, _, h3⟩ := parseDb_records gs es hc he
+  exact ⟨F0, gm, h1, h3⟩
+
+/-- the position recorded for a group record designates a group carrying the record's name -/
+theorem C02_kdb_position_designates (d : Nat) (F : List KNode) (nm : Bytes) (F' : List KNode) (p : List Nat)
+    (h : insertRight F d (.group nm []) = some F') (hp : spinePos F d = some p) : groupAt F' p = some (nm, []) :=
+  insertRight_new_at d F nm F' p h hp
+
+/-- appending an entry at a recorded position adds it to the children of the designated group, whose name is unchanged -/
+theorem C02_kdb_entry_lands_in_group (p : List Nat) (F : List KNode) (e : KNode) (nm : Bytes) (ch : List KNode)
+    (h : groupAt F p = some (nm, ch)) : groupAt (kAddAt F p e) p = some (nm, ch ++ [e]) :=
+  kAddAt_at p F e nm ch h
+
+/-- recorded positions stay valid while further groups and entries are added -/
+theorem C02_kdb_positions_stable (d : Nat) (F : List KNode) (x : KNode) (F' : List KNode) (p q : List Nat) (e : KNode)
+    (h : insertRight F d x = some F') (hw : kWalk F p = true) (hq : kWalk F' q = true) :
+    kWalk F' p = true ∧ kWalk (kAddAt F' q e) p = true :=
+  ⟨insertRight_walk d F x F' p h hw, kAddAt_walk q F' e p hq (insertRight_walk d F x F' p h hw)⟩
+
+/-- the hypotheses are satisfiable: two equally named siblings, a nested group, two entries (non-vacuity) -/
+example : conform 0 [⟨0, [65], 10⟩, ⟨0, [65], 20⟩, ⟨1, [66], 30⟩]
+    ∧ (⟨30, List.replicate 16 7, [(4, [101, 0]), (7, [112])]⟩ : ERec).ok := by
+  refine ⟨⟨by decide, ⟨by decide, by decide, by decide, by decide⟩, by decide, ⟨by decide, by decide, by decide, by decide⟩,
+    by decide, ⟨by decide, by decide, by decide, by decide⟩, trivial⟩, by decide, by decide, ?_⟩
+  intro f hf
+  simp only [List.mem_cons, List.not_mem_nil, or_false] at hf
+  rcases hf with rfl | rfl <;> simp [valueType]
 
 end Kp.Props.C02
